@@ -62,6 +62,13 @@ pub fn client_config(_seed: u64, _ep: usize) -> ClientConfig {
     ClientConfig::new(Arc::new(q))
 }
 
+/// The crypto half of a client configuration. Kept per simulated client endpoint, so that the
+/// session tickets rustls stores in it are offered by that endpoint's later connections.
+pub fn client_crypto() -> Arc<QuicClientConfig> {
+    let q: QuicClientConfig = rustls_client().try_into().unwrap();
+    Arc::new(q)
+}
+
 /// A ring HKDF key for address-validation tokens (quinn's real token protection), derived from
 /// a seed so that runs are reproducible.
 pub fn ring_token_key(seed: u64) -> Arc<dyn proto::crypto::HandshakeTokenKey> {
